@@ -1891,7 +1891,7 @@ func Run(cfg hx.Config) error {
 	}
 	reobserve(r, p)
 
-	nh := cfg.N(2000, 100000)
+	nh := cfg.N(2000, 70000)
 	for i := 0; i < nh && !r.Stop(); i++ {
 		history(r, rnd, p)
 	}
